@@ -16,6 +16,7 @@ TRANSFORMS = [
     "return type `-> T` rewritten to `-> (name: T)` when the contract names the result",
     "function renamed only when the template asks for it with `as <name>` (used to place two cfg arms side by side)",
     "`debug_assert!(e);` -> `assert(e);` (same obligation, Verus spelling) when option debug_assert=verus is given",
+    "items (struct/const/type): attributes dropped except that `#[derive(.. Clone, Copy ..)]` is re-emitted as `#[derive(Clone, Copy)]`, visibility normalised to `pub`; with option `limbs`, a const initialised by `T::w64be(l3,l2,l1,l0)` / `T::w64le(l0,l1,l2,l3)` with four literal limbs is rewritten to the tuple-struct literal `GF255([l0,l1,l2,l3])` (w64be/w64le are proved in the same unit to build exactly that array)",
     "anonymous loop pattern: `for _ in <range>` -> `for vloop<k> in <range>` (k-th such loop of the function) so that a loop invariant can name the counter",
 ]
 
